@@ -133,11 +133,14 @@ Proof.
   unfold cform_mem. rewrite existsb_exists. intros [g [Hin H]]. destruct (cform_eq_dec f g); [subst; exact Hin|discriminate].
 Qed.
 
-(* for a covered callable and ALL argument values: accepted iff the shapes are one of its documented forms *)
-Lemma all_shapes_strict name fs args :
+(* for a covered callable, ALL argument values and ANY receiver length n (self.num_e): accepted iff the shapes are one of
+   its documented forms *)
+Definition b0_of (n : nat) : benv := [("self.num_e"%string, Some n)].
+
+Lemma all_shapes_strict name fs n args :
   In (name, fs) documented_forms -> all_shapes_row (name, fs) = true ->
-  accepts_effective all_contracts delegation forms_b0 name args =
-  in_cforms forms_b0 (map (canon forms_ext) fs) args.
+  accepts_effective all_contracts delegation (b0_of n) name args =
+  in_cforms (b0_of n) (map (canon forms_ext) fs) args.
 Proof.
   intros _ H. unfold all_shapes_row in H. cbn [fst snd] in H.
   apply andb_true_iff in H. destruct H as [H H4]. apply andb_true_iff in H. destruct H as [H H3].
@@ -146,11 +149,12 @@ Proof.
   assert (D : (match assoc delegation name with Some ds => ds | None => [] end) = []).
   { unfold has_delegates in H1. destruct (assoc delegation name) as [[|d ds]|]; [reflexivity|discriminate|reflexivity]. }
   rewrite D. cbn [run_delegates].
-  pose proof (accepts_iff_forms forms_b0 args (contract_of all_contracts name) (senv_of forms_b0) forms_b0 H2
-                (senv_rel_init forms_b0 args forms_b0_all_some)) as A.
-  unfold accepts in A.
-  transitivity (in_cforms forms_b0 (forms_of_contract (contract_of all_contracts name) (senv_of forms_b0)) args).
-  - rewrite <- A. destruct (run_contract_from (contract_of all_contracts name) args forms_b0); reflexivity.
+  assert (S0 : senv_of (b0_of n) = senv_of forms_b0) by reflexivity.
+  pose proof (accepts_iff_forms (b0_of n) args (contract_of all_contracts name) (senv_of (b0_of n)) (b0_of n) H2
+                (senv_rel_init (b0_of n) args eq_refl)) as A.
+  unfold accepts in A. rewrite S0 in A.
+  transitivity (in_cforms (b0_of n) (forms_of_contract (contract_of all_contracts name) (senv_of forms_b0)) args).
+  - rewrite <- A. destruct (run_contract_from (contract_of all_contracts name) args (b0_of n)); reflexivity.
   - apply eq_true_iff_eq. split; apply in_cforms_incl; intros f Hf.
     + rewrite forallb_forall in H3. apply cform_mem_In. apply H3. exact Hf.
     + rewrite forallb_forall in H4. apply cform_mem_In. apply H4. exact Hf.
@@ -206,7 +210,7 @@ Lemma canon_agrees_on_universe :
 Proof. vm_compute. reflexivity. Qed.
 
 Lemma all_shapes_covered_count :
-  (List.length all_shapes_covered, List.length all_shapes_via_delegates, List.length documented_forms) = (57, 20, 88)%nat.
+  (List.length all_shapes_covered, List.length all_shapes_via_delegates, List.length documented_forms) = (58, 20, 88)%nat.
 Proof. vm_compute. reflexivity. Qed.
 
 Definition all_shapes_outside : list string :=
@@ -221,8 +225,13 @@ Lemma all_shapes_outside_list : all_shapes_outside =
    "polliwog.transform._coordinate_manager.CoordinateManager.rotate";
    "polliwog.transform._rodrigues.cv2_rodrigues";
    "polliwog.transform._rodrigues.rodrigues_vector_to_rotation_matrix";
-   "polliwog.transform._viewing.world_to_view";
    "polliwog.tri.functions.tri_contains_coplanar_point"].
+Proof. vm_compute. reflexivity. Qed.
+
+(* every callee of the delegating callables is itself covered for all shapes (then its symbolic forms ARE its documented
+   forms), or is an external vg contract, or is a pass-through delegator without checks of its own *)
+Lemma delegate_callees_status :
+  forallb (fun name => forallb callee_status_ok (delegates_list name)) all_shapes_via_delegates = true.
 Proof. vm_compute. reflexivity. Qed.
 
 Lemma all_shapes_row_of_covered name : In name all_shapes_covered ->
